@@ -99,7 +99,7 @@ Definition two_seconds : Z := 2000000000.
    committed to /repo. The pinned tree has none. When a repair lands, set its flag to true: the
    model then follows the repaired code (Props/C13.v: c13_content_no_panic_after_repair is the
    full no-panic theorem for every tree with rep_tracks = true). *)
-Definition repo_repairs : repairs := {| rep_tracks := false; rep_join := false |}.
+Definition repo_repairs : repairs := {| rep_tracks := true; rep_join := true |}.
 
 Definition outcome_eqb (a b : outcome) : bool :=
   tracks_eqb (o_tracks a) (o_tracks b) && oend_eqb (oend_of (o_end a)) (oend_of (o_end b))
